@@ -21,6 +21,10 @@ class _DictView:
     def __len__(self) -> int:
         return len(self._wrapper)
 
+    def __contains__(self, item: object) -> bool:
+        # The collections.abc views look their argument up in `self._mapping`, which these views do not have.
+        return any(x is item or x == item for x in self)  # type: ignore[attr-defined]
+
 
 class RepeatedRawMetaKeysView(_DictView, KeysView[str]):
     def __iter__(self) -> Iterator[str]:
